@@ -64,6 +64,8 @@ def instances(tier, seed):
     out.append(dict(label='fp_nan_free k=1 bits=16', kind='fp_nan', k=1, bits=16, timeout=60 if tier == 'quick' else 300))
     if tier == 'thorough':
         out.append(dict(label='fp_nan_free k=2 bits=16', kind='fp_nan', k=2, bits=16, timeout=600))
+    if tier == 'thorough':
+        out.append(dict(label='crosshair second opinion: correct_value', kind='crosshair', kernel='correct_value'))
     return out
 
 
@@ -788,3 +790,21 @@ def _run_fp_linked(inst, res):
 
 def _run_fp_nan(inst, res):
     _fp_harness(inst, res, inst['k'], nan_lemma=True)
+
+
+def _run_crosshair(inst, res):
+    """second opinion only (DESIGN.md 1.2): a CrossHair counterexample where the main engine proved the claim makes this
+    instance inconclusive; 'Not confirmed' is reported as not covered"""
+    from checks import crosshair_opinion
+    out = crosshair_opinion.run(inst['kernel'], per_condition_timeout=30)
+    res['crosshair'] = out
+    res['paths'] = len(out)
+    res['obligations'] += len(out)
+    res['discharged'] += len([o for o in out if o['verdict'] == 'confirmed'])
+    for o in out:
+        if o['verdict'] in ('counterexample', 'error'):
+            res['status'] = INCONCLUSIVE
+            res['notes'].append(f"CrossHair {o['function']}: {o['verdict']}: {o['detail']}")
+        elif o['verdict'] != 'confirmed':
+            res['notes'].append(f"CrossHair {o['function']}: not covered ({o['detail']})")
+    res['sample'] = dict(harness=inst['label'], crosshair=out)
